@@ -639,6 +639,9 @@ func vxProcess(e *etree.Element) *etree.Element {
 	sig, name := "", ""
 	var keep []etree.Attr
 	for _, a := range e.Attr {
+		if a.Space == "" && a.Key == "vx-sigholder" {
+			continue
+		}
 		if a.Space == "" && strings.HasPrefix(a.Key, "vx-") {
 			switch a.Key {
 			case "vx-sig":
@@ -650,6 +653,22 @@ func vxProcess(e *etree.Element) *etree.Element {
 		}
 		keep = append(keep, a)
 	}
+	holder := false
+	for _, a := range e.Attr {
+		if a.Space == "" && a.Key == "vx-sigholder" {
+			holder = true
+		}
+	}
+	if holder {
+		// keep the marker until the parent has been signed; drop the placeholder Signature inside
+		keep = append(keep, etree.Attr{Key: "vx-sigholder", Value: "1"})
+		for i := 0; i < len(e.Child); i++ {
+			if ce, ok := e.Child[i].(*etree.Element); ok && ce.Tag == "Signature" {
+				e.RemoveChildAt(i)
+				break
+			}
+		}
+	}
 	e.Attr = keep
 	if sig != "" && sig != "none" {
 		for i := 0; i < len(e.Child); i++ {
@@ -659,17 +678,31 @@ func vxProcess(e *etree.Element) *etree.Element {
 			}
 		}
 	}
+	var out *etree.Element
 	switch sig {
 	case "valid":
 		ks := vxKeyStore("idp")
 		if vxI64("dsig.cert-rejected."+name) == 1 {
 			ks = vxKeyStore("untrusted")
 		}
-		return vxSign(e, ks)
+		out = vxSign(e, ks)
 	case "invalid":
-		return vxSign(e, vxKeyStore("untrusted"))
+		out = vxSign(e, vxKeyStore("untrusted"))
+	default:
+		return e
 	}
-	return e
+	// a signature holder (vx-sigholder) receives the enveloped Signature: signed while the holder is empty,
+	// then moved inside it — the enveloped-signature transform removes it again wherever it sits
+	for _, c := range out.Child {
+		if h, ok := c.(*etree.Element); ok && h.SelectAttr("vx-sigholder") != nil {
+			h.RemoveAttr("vx-sigholder")
+			sigEl := out.Child[len(out.Child)-1].(*etree.Element)
+			out.RemoveChildAt(len(out.Child) - 1)
+			h.AddChild(sigEl)
+			break
+		}
+	}
+	return out
 }
 
 func vxRenderBytes(root *etree.Element) []byte {
@@ -687,26 +720,44 @@ func vxRenderBytes(root *etree.Element) []byte {
 }
 
 func vEncodeDoc(name string, root *etree.Element, mode int) string {
-	vxFresh(name)
+	n := vxFresh(name)
 	raw := vxRenderBytes(root)
 	switch mode {
 	case 1:
-		var b bytes.Buffer
-		w, _ := flate.NewWriter(&b, flate.BestCompression)
-		w.Write(raw)
-		w.Close()
-		raw = b.Bytes()
+		raw = vxDeflate(vxPadTo(raw, vxI64(n+".inflated_len")))
 	case 2:
 		raw = append([]byte(`<?xml version="1.0" encoding="ISO-8859-1"?>`), raw...)
 	}
 	return base64.StdEncoding.EncodeToString(raw)
 }
 
-func vEncryptTree(name string, inner *etree.Element, key []byte) string {
-	vxFresh(name)
+// vxPadTo appends trailing white space (legal after the root element, outside every signature) up to n bytes.
+func vxPadTo(b []byte, n int64) []byte {
+	if n > 1<<26 {
+		n = 1 << 26
+	}
+	if int64(len(b)) < n {
+		b = append(b, bytes.Repeat([]byte{' '}, int(n)-len(b))...)
+	}
+	return b
+}
+
+func vxDeflate(raw []byte) []byte {
+	var b bytes.Buffer
+	w, _ := flate.NewWriter(&b, flate.BestSpeed)
+	w.Write(raw)
+	w.Close()
+	return b.Bytes()
+}
+
+func vEncryptTree(name string, inner *etree.Element, key []byte, compressed bool) string {
+	n := vxFresh(name)
 	plain := []byte("<<< this plaintext is not XML")
 	if inner != nil {
 		plain = vxRenderBytes(inner)
+		if compressed {
+			plain = vxDeflate(vxPadTo(plain, vxI64(n+".inflated_len")))
+		}
 	}
 	blk, err := aes.NewCipher(key)
 	if err != nil {
